@@ -92,6 +92,13 @@ def new_key(t, name="new"):
     return fp
 
 
+def candidates(t, fp):
+    """the two candidate buckets of fingerprint fp for the CURRENT capacity, computed by the harness (fp mod capacity, and the
+    supplied strategy applied to str(fp) mod capacity) - deliberately not through the filter's own index method"""
+    cap = t.f.capacity
+    return fp % cap, t.hf(str(fp)) % cap
+
+
 def stored(t):
     """list of (bucket index, fingerprint, count) currently in the table"""
     out = []
@@ -108,7 +115,7 @@ def invariants(t, cap0, sfx=""):
     st = stored(t)
     conds = []
     for b, fp, cnt in st:
-        i1, i2 = f._indicies_from_fingerprint(fp)
+        i1, i2 = candidates(t, fp)
         conds.append(ctx.or_(ctx.eq(i1, b), ctx.eq(i2, b)))
     ctx.check(ctx.and_(conds), "inv-candidate-bucket" + sfx)
     ctx.check(ctx.and_([ctx.ne(a[1], b[1]) for a, b in itertools.combinations(st, 2)]), "inv-distinct" + sfx)
@@ -125,7 +132,7 @@ def lookup_term(t, fp):
     """what check() must answer for a key with fingerprint fp, as a term over the current table: the count stored
     for fp in one of fp's two candidate buckets (0 = absent).  c03.lookup proves the real check() equals this."""
     ctx, f = t.ctx, t.f
-    i1, i2 = f._indicies_from_fingerprint(fp)
+    i1, i2 = candidates(t, fp)
     return ctx.sum([ctx.ite(ctx.and_(ctx.eq(e, fp), ctx.or_(ctx.eq(i1, b), ctx.eq(i2, b))), c, 0) for b, e, c in stored(t)])
 
 
